@@ -21,7 +21,7 @@ func init() { props["C19"] = c19 }
 
 func c19(c *Ctx) {
 	maxKeys := c.N(5, 6)
-	c.Rule = fmt.Sprintf("exhaustive: 21 value kinds (nil slices and maps of several Go types included) x 6 predicates; every path of 1..%d keys (for <=3 keys also with the query keys in upper case) x every subset of `?` marks x every key-state vector in {present, null, absent}^n x {IsNull, IsNotNull, IsEmpty, IsNotEmpty, IsNullOrEmpty, IsNotNullOrEmpty, no predicate}. Oracle: three-valued guard computed in the harness. Non-trivial = at least one key is null or absent; distinct by (query, data).", maxKeys)
+	c.Rule = fmt.Sprintf("exhaustive: 21 value kinds (nil slices and maps of several Go types included) x 6 predicates; every path of 1..%d keys (for <=3 keys also with the query keys in upper case) x every subset of `?` marks x every key-state vector in {present, null, absent}^n x {IsNull, IsNotNull, IsEmpty, IsNotEmpty, IsNullOrEmpty, IsNotNullOrEmpty, no predicate}. Oracle: three-valued guard computed in the harness. The null tests as filter predicates over lists holding null elements beside others. Non-trivial = at least one key is null or absent; distinct by (query, data).", maxKeys)
 	type vk struct {
 		name        string
 		d           *D
